@@ -1,0 +1,45 @@
+//go:build verif
+
+// Contracts for package model (compiled only with -tags=verif; checked by /verif/bin/govc).
+package model
+
+//@ func (*Target).HasTag(t, tagName) (r)
+//@   pure
+//@   ensures [iff_member] r <==> inSlice(t.Tags, tagName)
+//@ loop #1
+//@   invariant [none_so_far] forall j int :: 0 <= j && j <= rangeindex ==> t.Tags[j] != tagName
+
+//@ func (*Target).SkipsCache(t) (r)
+//@   pure
+//@   ensures [iff_tag] r <==> inSlice(t.Tags, "no-cache")
+
+//@ func (*Target).IsMultiplatformCache(t) (r)
+//@   pure
+//@   ensures [iff_tag] r <==> inSlice(t.Tags, "multiplatform-cache")
+
+//@ func (*Target).IsTestOnly(t) (r)
+//@   pure
+//@   ensures [iff_tag] r <==> inSlice(t.Tags, "testonly")
+
+//@ func (Output).IsSet(o) (r)
+//@   pure
+//@   ensures [iff_identifier] r <==> o.Identifier != ""
+
+//@ func (Output).String(o) (s)
+//@   pure
+//@   ensures [canon] s == o.Type + "::" + o.Identifier
+
+//@ func (*Target).HasBinOutput(t) (r)
+//@   pure
+//@   ensures [iff_set] r <==> t.BinOutput.Identifier != ""
+
+//@ func (*Target).AllOutputs(t) (r)
+//@   pure
+//@   ensures [no_bin] t.BinOutput.Identifier == "" ==> r == t.Outputs
+//@   ensures [with_bin] t.BinOutput.Identifier != "" ==> len(r) == len(t.Outputs) + 1 && arr(r) == store(arr(t.Outputs), len(t.Outputs), t.BinOutput)
+
+//@ func (*Target).OutputDefinitions(t) (defs)
+//@   pure
+//@   ensures [bag_of_declared_outputs] bagOf(defs) == outDefBag(t.Outputs, t.BinOutput)
+//@ loop #1
+//@   invariant [prefix] bagOf(definitions) == defBagArr(arr(ranged()), rangeindex + 1)
